@@ -15,7 +15,7 @@
     - [expand] = attr_value_from_name / XmlUnexpandedEntityReference::value (entity expansion).
     - derived accessors used by the dump: [doc_notations], [doc_unparsed_entities], [impl_eq].
 
-    The model follows /repo main as of 584b4c9 + ed2c470, i.e. WITH the repairs of this area
+    The model follows /repo main as of 23b1aa2, i.e. WITH the repairs of this area
     (bd92e3d: parameter entities give Error::InvalidData instead of unimplemented!, D07;
     ed2c470: entity recursion detected during expansion, D09) and with builder-wf's
     well-formedness checks in XmlDocument::new (unique attribute names, legal characters,
@@ -357,23 +357,24 @@ Definition build_notation (d : decl_notation) : notation :=         (* XmlNotati
   | NiExternal x => Notation (dn_name d) (Some (fst (external_id_parts x))) (snd (external_id_parts x))
   | NiPublic p => Notation (dn_name d) None (Some p)
   end.
-(** XmlDeclarationAttDef::new: default values are resolved while the document type declaration is
-    still under construction, so only the predefined entities are visible ([ents] = []) and
-    Context::external_subset answers false *)
-Definition build_attdef (d : att_def) : ires attdef :=
+(** XmlDeclarationAttDef::new.  Since 7c6f42b the document type declaration is attached to the
+    document before its markup declarations are read: a default value sees the general entities
+    declared BEFORE the attribute-list declaration ([acc]) and Context::external_subset answers
+    for this declaration ([ext]) *)
+Definition build_attdef (acc : list entity) (ext : bool) (d : att_def) : ires attdef :=
   let (local, prefix) := match ad_name d with DanAttr q => qname_parts q | DanNamespace a => attribute_name a end in
   ibind (match ad_value d with
          | AdRequired => IOk XdRequired
          | AdImplied => IOk XdImplied
-         | AdValue f vs => ibind (build_avalues [] false vs) (fun vs' => IOk (XdValue f vs'))
+         | AdValue f vs => ibind (build_avalues acc ext vs) (fun vs' => IOk (XdValue f vs'))
          end) (fun dv => IOk (AttDefI local prefix (ad_ty d) dv)).
-Fixpoint build_attdefs (l : list att_def) : ires (list attdef) :=
+Fixpoint build_attdefs (acc : list entity) (ext : bool) (l : list att_def) : ires (list attdef) :=
   match l with
   | [] => IOk []
-  | d :: l' => ibind (build_attdef d) (fun x => ibind (build_attdefs l') (fun r => IOk (x :: r)))
+  | d :: l' => ibind (build_attdef acc ext d) (fun x => ibind (build_attdefs acc ext l') (fun r => IOk (x :: r)))
   end.
-Definition build_attlist (d : decl_att) : ires attlist :=           (* XmlDeclarationAttList::node *)
-  ibind (build_attdefs (da_defs d)) (fun atts =>
+Definition build_attlist (acc : list entity) (ext : bool) (d : decl_att) : ires attlist :=   (* XmlDeclarationAttList::node *)
+  ibind (build_attdefs acc ext (da_defs d)) (fun atts =>
   IOk (AttList (fst (qname_parts (da_name d))) (snd (qname_parts (da_name d))) atts)).
 
 Definition s_percent_sp (n : str) : str := 37 :: 32 :: n.             (* format!("% {}", name) *)
@@ -393,28 +394,35 @@ Definition check_entity_decl (d : entity_def) : ires unit :=
   match d with EdValue l => check_entity_values l | EdExternal _ _ => IOk tt end.
 
 (** [pinned] selects the code before bd92e3d (unimplemented!) *)
-Fixpoint build_subset (pinned : bool) (l : list int_subset) : ires (list dtd_item) :=
+(** [acc] = the general entities declared so far (what Context::entity sees) *)
+Fixpoint build_subset (pinned ext : bool) (acc : list entity) (l : list int_subset) : ires (list dtd_item) :=
   match l with
   | [] => IOk []
   | x :: l' =>
     match x with
     | IsMarkup (MkAttributes d) =>
-      ibind (build_attlist d) (fun a => ibind (build_subset pinned l') (fun r => IOk (DtAttList a :: r)))
-    | IsMarkup (MkComment _) | IsMarkup (MkElement _) | IsWhitespace _ => build_subset pinned l'
+      ibind (build_attlist acc ext d) (fun a => ibind (build_subset pinned ext acc l') (fun r => IOk (DtAttList a :: r)))
+    | IsMarkup (MkComment _) | IsMarkup (MkElement _) | IsWhitespace _ => build_subset pinned ext acc l'
     | IsMarkup (MkEntity (DeGeneral n d)) =>
       ibind (check_entity_decl d) (fun _ =>
-      ibind (build_subset pinned l') (fun r => IOk (DtEntity (build_entity n d) :: r)))
+      ibind (build_subset pinned ext (acc ++ [build_entity n d]) l') (fun r => IOk (DtEntity (build_entity n d) :: r)))
     | IsMarkup (MkEntity (DeParameter n _)) =>
       if pinned then IPanic PsParameterEntityDecl else IErr (InvalidData (s_percent_sp n))
-    | IsMarkup (MkNotation d) => ibind (build_subset pinned l') (fun r => IOk (DtNotation (build_notation d) :: r))
-    | IsMarkup (MkPI p) => ibind (build_subset pinned l') (fun r => IOk (DtPI p :: r))
+    | IsMarkup (MkNotation d) => ibind (build_subset pinned ext acc l') (fun r => IOk (DtNotation (build_notation d) :: r))
+    | IsMarkup (MkPI p) => ibind (build_subset pinned ext acc l') (fun r => IOk (DtPI p :: r))
     | IsPeReference n =>
       if pinned then IPanic PsParameterEntityRef else IErr (InvalidData (s_pe_ref n))
     end
   end.
 
-Definition build_doctype (pinned : bool) (d : decl_doc) : ires doctype :=   (* XmlDocumentTypeDeclaration::node *)
-  ibind (build_subset pinned (dd_internal_subset d)) (fun ch =>
+(** Context::external_subset: declarations may come from an external subset, which is not read *)
+Definition external_subset (standalone : option bool) (system : option str) : bool :=
+  negb (match standalone with Some true => true | _ => false end) && is_some system.
+
+Definition build_doctype (pinned : bool) (standalone : option bool) (d : decl_doc) : ires doctype :=   (* XmlDocumentTypeDeclaration::node_attached *)
+  ibind (build_subset pinned
+           (external_subset standalone (match dd_external_id d with Some x => Some (fst (external_id_parts x)) | None => None end))
+           [] (dd_internal_subset d)) (fun ch =>
   IOk (DocType (fst (qname_parts (dd_name d))) (snd (qname_parts (dd_name d)))
                (match dd_external_id d with Some x => Some (fst (external_id_parts x)) | None => None end)
                (match dd_external_id d with Some x => snd (external_id_parts x) | None => None end)
@@ -433,19 +441,16 @@ Definition dt_pis (d : doctype) : list ppi :=
 Definition misc_items (l : list misc) : list item :=                  (* add_misc *)
   flat_map (fun m => match m with MiComment s => [ItComment s] | MiPI p => [ItPI p] | MiWhitespace _ => [] end) l.
 
-(** Context::external_subset: declarations may come from an external subset, which is not read *)
-Definition external_subset (standalone : option bool) (dt : option doctype) : bool :=
-  negb (match standalone with Some true => true | _ => false end)
-  && match dt with Some x => is_some (dt_system x) | None => false end.
-
 Definition build_document_gen (pinned : bool) (d : pdoc) : ires document :=
   let p := d_prolog d in
   ibind (match pr_declaration_doc p with
-         | Some dd => ibind (build_doctype pinned dd) (fun x => IOk (Some x))
+         | Some dd => ibind (build_doctype pinned (match pr_declaration_xml p with Some x => dx_standalone x | None => None end) dd)
+                            (fun x => IOk (Some x))
          | None => IOk None
          end) (fun dt =>
   ibind (build_element (match dt with Some x => dt_entities x | None => [] end)
-                       (external_subset (match pr_declaration_xml p with Some x => dx_standalone x | None => None end) dt)
+                       (external_subset (match pr_declaration_xml p with Some x => dx_standalone x | None => None end)
+                                        (match dt with Some x => dt_system x | None => None end))
                        (d_element d)) (fun el =>
   IOk (Doc (misc_items (pr_heads p)
             ++ (match dt with Some x => [ItDocType x] | None => [] end)
@@ -457,9 +462,9 @@ Definition build_document_gen (pinned : bool) (d : pdoc) : ires document :=
 Definition build_document : pdoc -> ires document := build_document_gen false.
 Definition build_document_pinned : pdoc -> ires document := build_document_gen true.
 
-(** XmlAttribute::namespace: the attribute is a namespace declaration *)
+(** XmlAttribute::namespace: xmlns:p=.. or xmlns=..; p:xmlns=.. is an ordinary attribute (f146ad9) *)
 Definition attr_namespace (a : attr) : bool :=
-  match xa_prefix a with Some p => str_eqb p s_xmlns | None => false end || str_eqb (xa_local a) s_xmlns.
+  match xa_prefix a with Some p => str_eqb p s_xmlns | None => str_eqb (xa_local a) s_xmlns end.
 
 (** ** accessors of the document that are not plain projections *)
 Definition doc_doctype (d : document) : option doctype :=            (* document_declaration *)
@@ -485,36 +490,43 @@ Definition normalize_ws (s : str) : str :=
 
 (** [checked] = the code after ed2c470 (a name already on the path of the expansion is an
     error); [pinned_pe] = the code before bd92e3d.  One unit of fuel per entity entered. *)
-Definition expand_value (rec : str -> ires str) (pinned_pe : bool) (v : ent_value) : ires str :=
+(** [in_attribute]: attr_value_from_name (true: a character reference of the entity value is a
+    literal character of the replacement text, whose white space is normalised, D37) or
+    XmlUnexpandedEntityReference::value (false) *)
+Definition expand_value (rec : str -> ires str) (pinned_pe in_attribute : bool) (v : ent_value) : ires str :=
   match v with
-  | XvCharacter num r => ibind (char_from num r) (fun c => IOk [c])
+  | XvCharacter num r => ibind (char_from num r) (fun c => IOk (if in_attribute then normalize_ws [c] else [c]))
   | XvEntity n => rec n
   | XvParameter n => if pinned_pe then IPanic PsParameterEntityValue else IErr (InvalidData (s_pe_ref n))
   | XvText s => IOk (normalize_ws s)
   end.
-Fixpoint expand_values (rec : str -> ires str) (pinned_pe : bool) (vs : list ent_value) : ires str :=
+Fixpoint expand_values (rec : str -> ires str) (pinned_pe in_attribute : bool) (vs : list ent_value) : ires str :=
   match vs with
   | [] => IOk []
-  | v :: vs' => ibind (expand_value rec pinned_pe v) (fun a =>
-                ibind (expand_values rec pinned_pe vs') (fun b => IOk (a ++ b)))
+  | v :: vs' => ibind (expand_value rec pinned_pe in_attribute v) (fun a =>
+                ibind (expand_values rec pinned_pe in_attribute vs') (fun b => IOk (a ++ b)))
   end.
-Fixpoint expand_gen (checked pinned_pe : bool) (fuel : nat) (ents : list entity) (path : list str) (name : str)
+Fixpoint expand_gen (checked pinned_pe in_attribute : bool) (fuel : nat) (ents : list entity) (path : list str) (name : str)
   : ires str :=
   match fuel with
   | O => IOof
   | S f =>
     if checked && existsb (str_eqb name) path then IErr (InvalidData (s_ge_ref name)) else
     ibind (lookup_entity ents name) (fun e =>
-    expand_values (expand_gen checked pinned_pe f ents (name :: path)) pinned_pe
+    expand_values (expand_gen checked pinned_pe in_attribute f ents (name :: path)) pinned_pe in_attribute
                   (match en_values e with Some l => l | None => [] end))
   end.
 
 (** enough for every table when recursion is checked (Proofs/Expansion.v) *)
 Definition expand_fuel (ents : list entity) : nat := length ents + 7.
+(** XmlUnexpandedEntityReference::value *)
 Definition expand (ents : list entity) (name : str) : ires str :=
-  expand_gen true false (expand_fuel ents) ents [] name.
+  expand_gen true false false (expand_fuel ents) ents [] name.
+(** attr_value_from_name *)
+Definition expand_attr (ents : list entity) (name : str) : ires str :=
+  expand_gen true false true (expand_fuel ents) ents [] name.
 Definition expand_pinned (fuel : nat) (ents : list entity) (name : str) : ires str :=
-  expand_gen false true fuel ents [] name.
+  expand_gen false true false fuel ents [] name.
 
 (** "some entity reachable from [name] refers back to an entity on the path": the guard the
     harness evaluates before it calls value() (harness/src/domains/parse.rs, [cyclic]) *)
